@@ -27,7 +27,7 @@
  *   active ops:              t<ms> clock := ms | c<d> clock += d | S gids_update | A sweep;  then the timer
  *                            thread comes to rest
  *   tokens:  s<id>@<now>+<ms>  c<id>=<ret>  u (gids_update returned)  f<id>@<now>
- *            o (the scan opens the databases)  r<stat called><build attempted>  hT hG hE  a<bits>
+ *            o (the scan opens the databases: setgrent)  e (closes them: endgrent)  r<stat called><build attempted>  hT hG hE  a<bits>
  *            `|` after every active op; at the end d<id>=<ret> (the cancel made by gids_destroy) or d-, then `.`
  *            !stuck<k>:<s>  refresh #k was entered and never returned (s = 1 if a sentinel timer still fired)
  * Each case runs in a forked child.                                                                            */
@@ -178,16 +178,25 @@ static size_t entry_need (const struct fent *e) {
     for (i = 0; i < e->nmem; i++) n += strlen (e->mem[i]) + 1;
     return n;
 }
+/* the group database is ONE stream, as in glibc's files backend: setgrent() opens the current file only when the stream
+   is not open — otherwise it rewinds the file it opened earlier, even if that one has since been replaced —, endgrent()
+   closes it, getgrent_r() without setgrent() opens it.  The user database has no stream (looked at afresh per scan). */
+static int stream_open;
 void __wrap_setgrent (void) {
-    scan_db = cur_db; scan_pw = cur_pw; gr_pos = 0; n_calls = 0; e_parked = 0; n_setgrent++;
+    if (!stream_open) { scan_db = cur_db; stream_open = 1; }
+    scan_pw = cur_pw; gr_pos = 0; n_calls = 0; e_parked = 0; n_setgrent++;
     pthread_mutex_lock (&em); emit ("o"); pthread_mutex_unlock (&em);
 }
-void __wrap_endgrent (void) { }
+void __wrap_endgrent (void) {
+    stream_open = 0;
+    pthread_mutex_lock (&em); emit ("e"); pthread_mutex_unlock (&em);
+}
 
 int __wrap_getgrent_r (struct group *grp, char *buf, size_t buflen, struct group **result) {
     const struct fent *e; size_t need; char *p; int i; struct hookrec *h = hook_of (cur_ord);
     int fault = h ? h->fault : -1;
     *result = NULL;
+    if (!stream_open) { scan_db = cur_db; stream_open = 1; gr_pos = 0; }
     if (n_calls++ == 0) park ('G');
     if ((fault >= 0 && gr_pos == fault) || gr_pos >= (scan_db ? scan_db->n : 0)) {
         if (!e_parked) { e_parked = 1; park ('E'); }
@@ -277,7 +286,10 @@ static void tramp (void *a) {
     n_stat = n_setgrent = 0; in_refresh = 1;
     in->cb (in->arg);
     in_refresh = 0;
-    pthread_mutex_lock (&em); emit ("r%d%d", n_stat > 0, n_setgrent > 0); cur_ord = -1; pthread_mutex_unlock (&em);
+    pthread_mutex_lock (&em);
+    if (stream_open) emit ("!unclosed%d", cur_ord);          /* the scan was not ended by endgrent() */
+    emit ("r%d%d", n_stat > 0, n_setgrent > 0); cur_ord = -1;
+    pthread_mutex_unlock (&em);
 }
 long __wrap_timer_set_relative (callback_f cb, void *arg, long msec) {
     struct inst *in = malloc (sizeof *in); long id, now;
